@@ -90,6 +90,13 @@ func vObserveB(n string, b []byte) {
 }
 func vKnown(id string, c bool) bool { return c }
 func vGo(name string, f func())     { go f() }
+func vTempDir() string {
+	d, err := os.MkdirTemp("", "zzverif")
+	if err != nil {
+		panic(err)
+	}
+	return d
+}
 func vSeqPart(key, prefix string, idx int) uint64 {
 	parts := strings.Split(strings.TrimPrefix(key, prefix), "-")[1:]
 	var n uint64
